@@ -2937,7 +2937,10 @@ impl<'a> FnTr<'a> {
     fn tail_expr_ty_value(&mut self, e: &Expr, env: &mut Env, st: &mut Stmts, expect: Option<Ty>) -> Res<(Tail, Ty)> {
         // like tail_expr_ty but `return` inside is not allowed; we do not detect nested returns
         // syntactically here beyond the direct children handled by block_val.
-        if contains_return(e) {
+        // builder B: in I/O mode `return Err(e)` is a throw of the monad (it short-circuits whatever it is bound in), only a
+        // `return Ok(..)` is a real early return
+        let io = self.reg.io.borrow().mode && !self.reg.io.borrow().in_pure;
+        if (io && crate::phyio::returns_ok(e)) || (!io && contains_return(e)) {
             return Err("`return` inside a value-position branch is not supported".into());
         }
         self.tail_expr_ty(e, env, st, expect)
